@@ -788,13 +788,13 @@ func ExtractLockOrder(repo string) (edges []string, witness map[string]string, s
 	a := &analysis{fset: token.NewFileSet(), structs: map[string]map[string]string{}, mutexes: map[string]bool{},
 		funcs: map[string]*funcInfo{}, edges: map[string]string{}, selfs: map[string]string{}, unres: map[string]int{},
 		ifaces: map[string]string{
-			"tsdb.Engine":           "tsm1.Engine",
-			"tsm1.TSMFile":          "tsm1.TSMReader",
-			"tsm1.TSMIndex":         "tsm1.indirectIndex",
-			"tsm1.blockAccessor":    "tsm1.mmapAccessor",
-			"tsm1.fileStore":        "tsm1.FileStore",
+			"tsdb.Engine":            "tsm1.Engine",
+			"tsm1.TSMFile":           "tsm1.TSMReader",
+			"tsm1.TSMIndex":          "tsm1.indirectIndex",
+			"tsm1.blockAccessor":     "tsm1.mmapAccessor",
+			"tsm1.fileStore":         "tsm1.FileStore",
 			"tsm1.CompactionPlanner": "tsm1.DefaultPlanner",
-			"tsm1.BatchDeleter":     "tsm1.batchDelete",
+			"tsm1.BatchDeleter":      "tsm1.batchDelete",
 		}}
 	if err = a.loadDir(filepath.Join(repo, "tsdb"), "tsdb"); err != nil {
 		return
